@@ -2,12 +2,13 @@
 
 Streams (real pydl code next to the Lean model lean/PydlVerif/Model/BSplineFit.lean):
   fit       bspline.fit(x, y, invvar) on one object: status, mask exact; coeff, yfit within tolerance
-            (the model's Cholesky kernels are textbook stand-ins for LAPACK, a parameter of the model);
+            (the model's Cholesky kernels - Model/BandChol.lean bandFactor/bandSolve (cholV Float.sqrt), for which the factor + solve
+            contract is a Lean theorem - stand in for LAPACK, a parameter of the model);
             the model's assembled alpha/beta against an independently built A^T W A / A^T W y
   refit     ill-posed problems: fit is called again while it answers -1 (as iterfit does), every round compared
   chol      cholesky_band / cholesky_solve on SPD, indefinite, non-finite banded matrices
-  fitq      EXACT run: the same model fit in rational arithmetic (driver op fitq, square-root-free banded LDL^T
-            kernels) on small well-posed cases; status, coeff, yfit, alpha, beta must EQUAL an independent exact
+  fitq      EXACT run: the same model fit in rational arithmetic (driver op fitq, the square-root-free banded LDL^T
+            kernels kernelsLdlt of Model/BandChol.lean = the kernels of theorem fit_is_optimum_ldlt) on small well-posed cases; status, coeff, yfit, alpha, beta must EQUAL an independent exact
             solution of the normal equations (Cox-de Boor design matrix, A^T W A, Gaussian elimination, all in
             fractions.Fraction); the real float fit must be within tolerance of that exact solution
 Oracle (no pydl, no model): dense weighted lstsq on the design matrix from scipy.interpolate.BSpline.design_matrix
@@ -31,7 +32,12 @@ THEOREMS = [P + t for t in (
     'rows_action', 'assemble_is_normal_action', 'fit_optimum_sorted', 'fit_normal_sorted', 'fit_zero_weight_sorted', 'fit_linear_sorted',
     'fit_exact_sorted', 'marsden', 'monomial_reproduction', 'poly_in_span', 'spline_of_poly', 'poly_reproduction_all',
     'poly_reproduction_sorted', 'fit_optimum_solves', 'fit_is_optimum', 'putGood_get', 'fit_obj_fields', 'fit_is_optimum_obj',
-    'exact_of_optimum', 'fit_reproduces_poly')]
+    'exact_of_optimum', 'fit_reproduces_poly',
+    # extension round 2: the factor + solve contract PROVED for the textbook banded kernels of Model/BandChol.lean (what the driver runs)
+    'ldlt_factor_spec', 'ldlt_factor_iff_pivots', 'ldlt_factor_iff_pos_def', 'chol_factor_iff_pos_def', 'ldlt_solve_spec', 'ldlt_solves',
+    'LdltContract.solves', 'ldlt_contract_kernel', 'chol_contract_kernel', 'cholesky_band_ldlt', 'cholesky_band_ldlt_iff_pos_def',
+    'cholesky_solves_ldlt', 'hsolve_ldlt', 'fit_is_optimum_ldlt', 'fit_is_optimum_obj_ldlt', 'fit_reproduces_poly_ldlt',
+    'fit_is_optimum_chol', 'fit_ldlt_status0_pivots', 'fit_ldlt_status0_pos_def')]
 RULE = ('fit cases = (order 1..6) x (sorted abscissae: uniform/random/clustered/duplicated, several scales) x (breakpoints from '
         'bkspace/nbkpts/everyn/explicit bkpt through the real constructor) x (y: polynomial below/at the order, smooth+noise, random) x '
         '(invvar: ones, random positive, with zeros, zero over a stretch, all zero); ill-posed cases = gaps wider than the spacing, '
@@ -43,12 +49,16 @@ RULE = ('fit cases = (order 1..6) x (sorted abscissae: uniform/random/clustered/
         'exact rational arithmetic and compared with an exact Fraction solution of the normal equations')
 TRUSTED = ['hand-written model lean/PydlVerif/Model/BSplineFit.lean (on Model/BSpline.lean of C08) tied to the code by the I/O correspondence of this run',
            'scipy.linalg.cholesky_banded / cho_solve_banded (LAPACK) are parameters of the model with the contract L L^T = A, A x = b '
-           '(assumed in the theorems, sampled here through the residuals); the Lean driver runs textbook stand-ins, compared within tolerance',
+           '(for LAPACK itself assumed, sampled here through the residuals); the Lean driver runs in their place the textbook banded '
+           'kernels of Model/BandChol.lean (Cholesky with Float.sqrt), for which the contract is PROVED over every ordered field with a '
+           'square root (chol_contract_kernel); LAPACK against these kernels is compared within tolerance',
            'np.argsort returns a sorting permutation; np.dot / sum (BLAS order) compared within tolerance',
            'scipy.interpolate.BSpline.design_matrix and numpy.linalg.lstsq as the independent oracle',
-           'exact run: the Lean driver supplies banded LDL^T kernels over Rat (not part of the model; their result is checked on every '
-           'case against exact Gaussian elimination in Python fractions.Fraction on an independently built design matrix); Lean core Rat '
-           'and Python Fraction arithmetic; the fallback loop of cholesky_band (needs sqrt) is never run exactly']
+           'exact run: the kernel parameter of the Rat interpretation is the banded LDL^T pair kernelsLdlt of Model/BandChol.lean, for which '
+           'L D L^T = A and A x = b are PROVED (ldlt_contract_kernel, fit_is_optimum_ldlt) over every ordered field; what stays trusted is that '
+           'core Rat arithmetic is the field Q (the theorems are stated for the field interpretation fieldScalar K of the Scalar operations); '
+           'the result is in addition checked on every case against exact Gaussian elimination in Python fractions.Fraction on an independently '
+           'built design matrix; the fallback loop of cholesky_band (needs sqrt) is never run exactly']
 ASSUMPTIONS = ['x2=None, npoly=1 (1-D B-splines); xdata sorted, finite float64; ydata finite; invvar >= 0 finite',
                'the first nord breakpoints are never masked (true for every mask that maskpoints produces)',
                '"every segment supported by data" is taken as: every diagonal entry of A^T W A exceeds 1000 x the code threshold '
@@ -880,15 +890,33 @@ LEVEL_TEXT = ('Machine-checked Lean 4 theorems over an executable model of bspli
               'reproduction up to degree nord-1, Cholesky residuals, leading-minor test of the reported column, no exception / no non-finite '
               'coefficient on every ill-posed class), and by an EXACT run (stream fitq): the same model fit executed in rational arithmetic on small '
               'well-posed problems equals, number for number, an independent exact solution of the normal equations (Cox-de Boor recursion and '
-              'Gaussian elimination in Fractions) - alpha, beta, coefficients and yfit - and the float fit of the real code lies within tolerance of it.')
-LEVEL_NOTE = ('Partial: LAPACK (cholesky_banded / cho_solve_banded) enters only through the hypothesis CholContract (resp. hsolve of fit_is_optimum: '
-              'the returned vector solves the assembled banded system) - sampled by the residual checks, never proved; the Lean driver runs '
-              'textbook stand-ins for it. Rows is no longer a hypothesis for sorted abscissae (rows_action); the general forms over arbitrary '
+              'Gaussian elimination in Fractions) - alpha, beta, coefficients and yfit - and the float fit of the real code lies within tolerance of it. '
+              'Extension 2 (solver side): the kernels that the driver runs in place of LAPACK are now Lean definitions of the model layer '
+              '(Model/BandChol.lean: left-looking banded factorisation bandFactor + forward/diagonal/back substitution bandSolve, in the square-root-free '
+              'L D L^T form ldltV for the exact run and the Cholesky form cholV sqrt for the float run) and their contract is PROVED for every ordered '
+              'field, every bandwidth and size: ldlt_factor_spec (a factor is answered exactly when all pivots are positive - ldlt_factor_iff_pivots - and '
+              'then D > 0, L unit lower banded, L D L^T = A entrywise, zero outside the band), ldlt_solve_spec / ldlt_solves ((L D L^T) x = b, A x = b), '
+              'ldlt_contract_kernel, chol_contract_kernel (CholContract itself for the Cholesky pair over a field with sqrt p * sqrt p = p), '
+              'ldlt_factor_iff_pos_def / chol_factor_iff_pos_def (the factorisation succeeds EXACTLY on positive definite matrices); for the model '
+              'functions: cholesky_band_ldlt (screen passed: the padded factor, or - pivot <= 0 = LinAlgError - the fallback answer, never a factor), '
+              'cholesky_band_ldlt_iff_pos_def, cholesky_solves_ldlt; hence fit_is_optimum_ldlt / fit_is_optimum_obj_ldlt / fit_reproduces_poly_ldlt: '
+              'the model fit run with these kernels (literally what stream fitq executes) returns, WHENEVER the status is 0, the minimiser of '
+              'sum invvar*(y - spline(x))^2 - with NO solver hypothesis; status 0 implies that every pivot was positive and that A^T W A is positive '
+              'definite (fit_ldlt_status0_pivots, fit_ldlt_status0_pos_def); fit_is_optimum_chol: the same for the Cholesky kernels when A^T W A is '
+              'positive definite.')
+LEVEL_NOTE = ('Partial: LAPACK itself (cholesky_banded / cho_solve_banded as called by the real code) remains a contract: the theorems with '
+              'CholContract / hsolve assume that its answer solves the assembled banded system (sampled by the residual checks); what is now PROVED is '
+              'that contract for the textbook banded kernels the Lean driver executes in its place (Model/BandChol.lean), and fit_is_optimum_ldlt has no '
+              'solver hypothesis. Not proved: that LAPACK computes what these kernels compute (compared within tolerance on every run); floating-point '
+              'behaviour of the Cholesky kernels (theorems are over exact ordered fields; Float.sqrt only satisfies sqrt p * sqrt p = p approximately); '
+              'for the Cholesky kernels with a real sqrt the statement that the code\'s fallback loop fails whenever the kernel fails (so '
+              'fit_is_optimum_chol assumes a positive definite normal matrix; in the L D L^T interpretation the fallback is cut off by sqrt := 0 and '
+              'reports column 0, not the first failing column - which column is reported is checked by the oracle of stream chol only); that core Rat '
+              'arithmetic is the field Q (theorems use the field interpretation of the Scalar operations). Rows is no longer a hypothesis for sorted abscissae (rows_action); the general forms over arbitrary '
               'lower/upper keep it. Polynomial reproduction is now proved for every degree < nord (Marsden), for knots non-decreasing with '
               't[nord-1] < t[nord] and points inside the breakpoint range. hsolve speaks of alpha/beta as the assemble functions, the kernel call '
               'gets the arrays normalSystem materialises from them; no end-to-end instance of fit_is_optimum is evaluated inside Lean (the field '
               'interpretation is noncomputable). x2 / npoly > 1 are outside the statement. Theorems are over exact ordered fields: rounding, the '
               '1e-10 influence threshold near equality and near-singular systems (class "marginal": only no-exception / finite output is '
-              'required) are outside them. Exact (Rat) run: only for small well-posed problems and only up to the factorisation kernel - the driver '
-              'supplies a square-root-free banded LDL^T pair as the kernel parameter of the Rat interpretation (not part of the model); the '
-              'fallback loop of cholesky_band (needs sqrt) is never run exactly.')
+              'required) are outside them. Exact (Rat) run: only for small well-posed problems; the kernel parameter of the Rat interpretation is the '
+              'proved banded L D L^T pair kernelsLdlt; the fallback loop of cholesky_band (needs sqrt) is never run exactly.')
